@@ -14,7 +14,7 @@ RULE = (
     "(None/str/list) x xy_range (None / explicit square / explicit non-square) x title x (supplied ax is / is not pyplot's current axes / "
     "no ax given) ; matching plots: the matchings actually returned by bottleneck (under ALL rank "
     "orders of the matching routine, M+N<=4) and wasserstein for all ordered pairs of a 6-diagram cover "
-    "incl. an empty partner, again with the supplied axes current or not. Oracle = artist inspection: "
+    "incl. an empty partner, again with the supplied axes current or not; 2-D landscape plots (plot_landscape_simple) of 4 diagrams x exact/grid class x 4 depth ranges x 3 axes modes: one line per plotted depth running along that depth's function. Oracle = artist inspection: "
     "PathCollection offsets, Line2D data, limits, labels, legend texts, and nothing on the other axes. "
     "state = (input, options); transition = one plotting call; non-trivial = infinite deaths present, "
     "plot_only given, or the supplied axes is not the current one."
@@ -58,8 +58,22 @@ def option_product(n_dgms):
                "xy_range": xyr, "title": title, "axmode": axmode}
 
 
+LCOVER = [
+    [[0.0, 4.0]],
+    [[0.0, 4.0], [1.0, 5.0]],
+    [[0.0, 6.0], [1.0, 5.0], [2.0, 4.0], [7.0, 9.0]],
+    [[-3.0, 1.0], [-1.0, 2.5], [0.5, 1.5]],
+]
+LDEPTHS = [None, [0, 1], [1, 3], [2, 3]]
+
+
 def cases(tier):
     yield {"kind": "large-matching"}
+    for li in range(len(LCOVER)):
+        for cls in ("exact", "approx"):
+            for di in range(len(LDEPTHS)):
+                for axmode in ("given-current", "given-not-current", "not-given"):
+                    yield {"kind": "landscape", "dgm": li, "cls": cls, "depths": di, "axmode": axmode}
     for ci, (name, dgms) in enumerate(COVER):
         for opt in option_product(len(dgms)):
             yield {"kind": "diagrams", "cover": ci, "opt": opt}
@@ -107,10 +121,75 @@ def run_case(case, ctx):
                 large_matching_case(ctx)
             elif case["kind"] == "diagrams":
                 diagrams_case(case, ctx)
+            elif case["kind"] == "landscape":
+                landscape_case(case, ctx)
             else:
                 matching_case(case, ctx)
     finally:
         plt.close("all")
+
+
+def landscape_case(case, ctx):
+    """2-D landscape plots (plot_landscape_simple): one line per plotted depth, each line running along that
+    depth's function (every vertex on it, the whole support covered, the peak not cut), on the axes given."""
+    import matplotlib.pyplot as plt
+    from persim import PersLandscapeApprox, PersLandscapeExact
+    from persim.landscapes import plot_landscape_simple
+
+    from oracles import landscape as OL
+
+    D = LCOVER[case["dgm"]]
+    A = np.array(D, dtype=float)
+    if case["cls"] == "exact":
+        L = PersLandscapeExact(dgms=[A], hom_deg=0)
+        ndepth = len(L.critical_pairs)
+    else:
+        L = PersLandscapeApprox(dgms=[A], hom_deg=0, num_steps=41)
+        ndepth = len(L.values)
+        grid = np.linspace(L.start, L.stop, L.num_steps)
+    dr = LDEPTHS[case["depths"]]
+    plotted = list(range(ndepth)) if dr is None else [k for k in range(dr[0], dr[1]) if k < ndepth]
+    fig, a1, a2, target = setup_axes(case["axmode"])
+    kw = {} if dr is None else {"depth_range": range(dr[0], dr[1])}
+    ctx.trans()
+    plot_landscape_simple(L, ax=target, title="LT", labels=["xx", "yy"], **kw)
+    ax = target if target is not None else a1
+    ex = {"diagram": D, "class": case["cls"], "depth_range": dr, "axmode": case["axmode"]}
+    ctx.state((case["dgm"], case["cls"], case["depths"], case["axmode"]))
+    if case["axmode"] == "given-not-current":
+        ctx.nontriv("supplied_axes_not_current")
+    if not untouched(ctx, a2, "plot_landscape_simple", ex):
+        return
+    lines = [l for l in ax.lines]
+    ctx.valid(3)
+    if len(lines) != len(plotted):
+        ctx.violation("landscape-plot-lines", "plot_landscape_simple must draw one line per plotted depth", observed=len(lines), expected=len(plotted), extra=ex)
+        return
+    if ax.get_title() != "LT" or ax.get_xlabel() != "xx" or ax.get_ylabel() != "yy":
+        ctx.violation("landscape-plot-labels", "title / axis labels of the landscape plot are not the requested ones",
+                      observed=[ax.get_title(), ax.get_xlabel(), ax.get_ylabel()], expected=["LT", "xx", "yy"], extra=ex)
+    for line, k in zip(lines, plotted):
+        xy = np.asarray(line.get_xydata(), dtype=float)
+        if case["cls"] == "exact":
+            f = lambda t: float(OL.kth_tent(D, t, k + 1))  # noqa: E731
+            support = [min(p[0] for p in L.critical_pairs[k]), max(p[0] for p in L.critical_pairs[k])]
+            peak = max(float(p[1]) for p in L.critical_pairs[k])
+        else:
+            vals = np.asarray(L.values[k], dtype=float)
+            f = lambda t: float(np.interp(t, grid, vals))  # noqa: E731
+            nz = np.nonzero(vals)[0]
+            support = [grid[max(0, nz[0] - 1)], grid[min(len(grid) - 1, nz[-1] + 1)]] if len(nz) else [grid[0], grid[0]]
+            peak = float(vals.max())
+        ctx.valid(3)
+        off = [(float(x), float(y), f(float(x))) for x, y in xy if abs(y - f(float(x))) > 1e-9]
+        if off:
+            ctx.violation("landscape-plot-data", "a vertex of the line drawn for depth %d is not on that depth's function" % (k + 1), observed=off[:3], extra=ex)
+        elif len(xy) and (xy[:, 0].min() > support[0] + 1e-9 or xy[:, 0].max() < support[1] - 1e-9):
+            ctx.violation("landscape-plot-data", "the line drawn for depth %d does not cover the support of that depth's function" % (k + 1),
+                          observed=[float(xy[:, 0].min()), float(xy[:, 0].max())], expected=support, extra=ex)
+        elif len(xy) and abs(float(xy[:, 1].max()) - peak) > 1e-9:
+            ctx.violation("landscape-plot-data", "the line drawn for depth %d misses the peak of that depth's function" % (k + 1), observed=float(xy[:, 1].max()), expected=peak, extra=ex)
+    ctx.outcome(("landscape", case["dgm"], case["cls"], case["depths"], [np.round(np.asarray(l.get_xydata(), dtype=float), 6).tolist() for l in lines]))
 
 
 def diagrams_case(case, ctx):
